@@ -118,7 +118,7 @@ func genMessages(rng *rand.Rand, rev int) []msgCase {
 		n := 1 + rng.Intn(4)
 		var b proto.Buffer
 		for i := 0; i < n; i++ {
-			e := proto.Exception{Code: proto.Error(int32(rng.Uint32())), Name: c17Str(rng), Message: c17Str(rng), Stack: c17Str(rng), Nested: i != n-1}
+			e := proto.Exception{Code: proto.Error(int32(c17U64(rng))), Name: c17Str(rng), Message: c17Str(rng), Stack: c17Str(rng), Nested: i != n-1}
 			e.EncodeAware(&b, rev)
 		}
 		add("ExceptionChain", b.Buf, func(rd *proto.Reader) (string, error) {
